@@ -23,7 +23,7 @@ type c20Case struct {
 func init() {
 	engine.Register(&engine.Check{
 		ID: "C20", Level: "exploration",
-		Rule:        "every sequence of 0..5 (quick) / 0..6 (thorough) points on the 3x3 grid and 0..4 / 0..5 on the 4x4 grid; every sequence of length <=9 / <=11 over a 3-point alphabet (deep stacks, repeated points, zero-length chords, closed loops); straight and zig-zag runs of 50/100/200 points with every single point displaced; damped zig-zags and inward spirals of 20..200 points (deep interval stacks); straight runs with displacements of 2^-21..2^-40 against thresholds around them; x thresholds {0, 1/4, 1/2, 1/sqrt2, 1, sqrt2, 2, 10} x stride 2..5 with NaN extras. Oracle: indexes strictly increasing incl. first and last (all indexes for <3 points); for each omitted point the exact rational squared distance to the segment between its nearest retained neighbours is <= t^2(1+2^-40) (exactly 0 for t = 0); simplifying the selected points again returns all of them. distinct_nontrivial = distinct (sequence, threshold) with >= 3 points Also: every point count 0..260 (zig-zag with one displaced point, lattice walk, collinear run) and, for every case, the returned slice overwritten and appended to by the caller followed by the same call again.",
+		Rule:        "every sequence of 0..5 (quick) / 0..6 (thorough) points on the 3x3 grid and 0..4 / 0..5 on the 4x4 grid; every sequence of length <=9 / <=11 over a 3-point alphabet (deep stacks, repeated points, zero-length chords, closed loops); straight and zig-zag runs of 50/100/200 points with every single point displaced; damped zig-zags and inward spirals of every length 20..70, 100 and 200 in both directions (deep interval stacks on either side); every sequence of 3..4 grid points again at three offsets up to 2^45 (one of them stretched by 30); straight runs with displacements of 2^-21..2^-40 against thresholds around them; x thresholds {0, 1/4, 1/2, 1/sqrt2, 1, sqrt2, 2, 10} x stride 2..5 with NaN extras. Oracle: indexes strictly increasing incl. first and last (all indexes for <3 points); for each omitted point the exact rational squared distance to the segment between its nearest retained neighbours is <= t^2(1+2^-40) (exactly 0 for t = 0); simplifying the selected points again returns all of them. distinct_nontrivial = distinct (sequence, threshold) with >= 3 points Also: every point count 0..260 (zig-zag with one displaced point, lattice walk, collinear run) and, for every case, the returned slice overwritten and appended to by the caller followed by the same call again.",
 		Run:         c20Run,
 		Replay:      func(c *engine.Ctx, kind string, raw json.RawMessage) { c20Exec(c, decodeCase[c20Case](raw)) },
 		Assumptions: []string{"integer-grid inputs (exact distances); thresholds >= 0"},
@@ -243,7 +243,11 @@ func c20Run(c *engine.Ctx) {
 		}
 	})
 	// deep interval stacks: damped zig-zags and inward spirals keep one interval pending per point
-	for _, n := range []int{20, 40, 60, 100, 200} {
+	deepN := []int{100, 200}
+	for n := 20; n <= 70; n++ {
+		deepN = append(deepN, n)
+	}
+	for _, n := range deepN {
 		for _, damp := range []float64{0.96875, 0.875, 0.75} {
 			zig := make([]ref.F, 0, 2*n)
 			spiral := make([]ref.F, 0, 2*n)
@@ -258,10 +262,22 @@ func c20Run(c *engine.Ctx) {
 				spiral = append(spiral, ref.F(math.Round(amp*math.Cos(ang))), ref.F(math.Round(amp*math.Sin(ang))))
 				amp = math.Round(amp * damp)
 			}
+			// and the same point sets traversed the other way (amplitude growing towards the end:
+			// the pending intervals pile up on the other side of each split)
+			rev := func(p []ref.F) []ref.F {
+				out := make([]ref.F, 0, len(p))
+				for i := len(p) - 2; i >= 0; i -= 2 {
+					out = append(out, p[i], p[i+1])
+				}
+				return out
+			}
+			zigR, spiralR := rev(zig), rev(spiral)
 			for ti, t := range []float64{0, 0.5, 1, 1000} {
-				c.Count("deep_stack_cases", 2)
+				c.Count("deep_stack_cases", 4)
 				c20Exec(c, c20Case{Pts: zig, Threshold: ref.F(t), Stride: 2 + ti%4})
 				c20Exec(c, c20Case{Pts: spiral, Threshold: ref.F(t), Stride: 2 + (ti+1)%4})
+				c20Exec(c, c20Case{Pts: zigR, Threshold: ref.F(t), Stride: 2 + (ti+2)%4})
+				c20Exec(c, c20Case{Pts: spiralR, Threshold: ref.F(t), Stride: 2 + (ti+3)%4})
 			}
 		}
 	}
@@ -303,5 +319,19 @@ func c20All(c *engine.Ctx, grid [][2]float64, seq []int, thresholds []float64) {
 	}
 	for ti, t := range thresholds {
 		c20Exec(c, c20Case{Pts: pts, Threshold: ref.F(t), Stride: 2 + (h+ti)%4})
+	}
+	// short sequences again far from the origin (integer ordinates, so every difference is still
+	// exact; absolute ordinates whose products no longer fit a float64)
+	if len(seq) >= 3 && len(seq) <= 4 {
+		for oi, off := range [][2]float64{{1<<30 + 83, 1<<30 + 37}, {-(1 << 40) + 1, 1<<33 + 5}, {1 << 45, 3}} {
+			q := make([]ref.F, len(pts))
+			for i := range pts {
+				q[i] = pts[i]*ref.F(1+29*(oi%2)) + ref.F(off[i%2])
+			}
+			for ti, t := range thresholds {
+				c.Count("far_from_origin_cases", 1)
+				c20Exec(c, c20Case{Pts: q, Threshold: ref.F(t * float64(1+29*(oi%2))), Stride: 2 + (h+ti)%4})
+			}
+		}
 	}
 }
